@@ -159,6 +159,11 @@ def T1(m, R):
                 src_var = ('<row>', norm(val.slice))
                 for i_, x in enumerate(tgt.elts):
                     unpacked[x.id] = i_
+            if isinstance(tgt, ast.Tuple) and isinstance(val, ast.Subscript) and is_name(val.value, tname) and all(isinstance(x, ast.Attribute) for x in tgt.elts):
+                # self.a, self.b = TABLE[code]: the attributes are wired to row[0], row[1] directly
+                src_var = ('<row>', norm(val.slice))
+                for i_, x in enumerate(tgt.elts):
+                    wired[x.attr] = ('<row>', i_)
             if isinstance(tgt, ast.Attribute) and isinstance(val, ast.Subscript) and isinstance(val.value, ast.Name):
                 wired[tgt.attr] = (val.value.id, const_val(val.slice))
             if isinstance(tgt, ast.Attribute) and isinstance(val, ast.Name) and val.id in unpacked:
